@@ -63,8 +63,8 @@ def check(prog, run):
         var = lp.target.id
 
         def bev(test, truth, var=var):
-            for names, _ in shapes.class_tests(test, var):
-                if truth:
+            for names, _, pos in shapes.class_tests_signed(test, var):
+                if truth == pos:
                     return "is:" + "|".join(names)
             return None
 
